@@ -107,8 +107,18 @@ impl PtSpec {
                 JubJubExtended::from_raw_unchecked(x * z, y * z, z, x, y * z)
             }
             4 => {
-                let (x, y) = self.base_affine();
-                JubJubExtended::from_raw_unchecked(x, y, F::zero(), x, y)
+                // Z = 0 with several numerator classes: the point's own
+                // coordinates, (0, 0), (0, 1) and arbitrary values; T either
+                // copied or arbitrary
+                let (bx, by) = self.base_affine();
+                let (x, y) = match self.t % 4 {
+                    0 => (bx, by),
+                    1 => (F::zero(), F::zero()),
+                    2 => (F::zero(), F::one()),
+                    _ => (self.x.0, self.y.0),
+                };
+                let (t1, t2) = if self.t % 8 >= 4 { (self.z.0, self.y.0) } else { (x, y) };
+                JubJubExtended::from_raw_unchecked(x, y, F::zero(), t1, t2)
             }
             _ => {
                 let (x, y) = self.base_affine();
